@@ -56,7 +56,8 @@ CHECKS = {
        "under the file's own lock, locks never nested, no deadlock (some thread can always step until all jobs are done), "
        "termination (a measure decreases with every step), each block written at most once per file, disjoint writes commute, and "
        "every complete run writes every block's corrected and parameter window exactly once whatever the schedule "
-       "(schedule_independent) (9 theorems). Tied to the code by running the real RasterFuse.process under a controlled scheduler that replaces the executor, "
+       "(schedule_independent) (9 theorems); source-tie: the machine's per-block program is the sequence of `with lock:` / dataset / "
+       "fit / apply steps that harness/py2lean.py extracts from _process_block and read on every run (src_C04_prog). Tied to the code by running the real RasterFuse.process under a controlled scheduler that replaces the executor, "
        "the four locks and the four datasets from outside: 30 (quick) / 1800 (thorough) seeded schedules (random, stall-first, "
        "round-robin, starve, sticky, switch; 2-4 workers); every observed trace is replayed and accepted by the Lean machine, no "
        "dataset call happens without its lock, outputs (pixels, masks, tags, descriptions; NaN and internal-mask outputs with "
@@ -74,7 +75,9 @@ CHECKS = {
        "image pair, grid geometry (ties included), kernel, block shape and overlap >= radius + 1, every source pixel gets from the "
        "block that writes it exactly the value and validity of the single-block run of the whole-image model (nearest/bilinear; "
        "all models given the same block normalisation), and partitions_agree; source-tie theorems for overlap_for_kernel and the "
-       "block loop of block_pairs. Tied to the code by pairs of real fusions (1 block vs "
+       "block loop of block_pairs; source-grid processing (Props/E2ESrc.lean): block_transparent_src_grid for average (the automatic "
+       "source grid) and nearest, for bilinear up to a reference pixel three source pixels wide, with a kernel-checked "
+       "counterexample beyond (forced grid, outside this property). Tied to the code by pairs of real fusions (1 block vs "
        "1..6 halvings): parameter images identical (bit-identical on dyadic integer-exact data), corrected identical for nearest/"
        "bilinear/source grid, cubic-spline differences confined to one processing pixel of a seam; overlap_for_kernel vs model; and "
        "multi-block real fusions against the whole-image model (Model/FuseImage.lean), which has no blocks at all.",
@@ -124,7 +127,7 @@ CHECKS = {
  'C09': dict(
   text="Proof (Lean 4) on the same machine with fault plans: a failed job makes the caller's outcome `raised` (fail_loud); "
        "under every fault plan: no deadlock, locks free in every final state, every submitted job finishes exactly once (a failure "
-       "does not cancel the others), a job with a faulting step is recorded as failed, outcome ok implies every block completed its "
+       "does not cancel the others), a job with a faulting step is recorded as failed (the same source-tied block program as C04), outcome ok implies every block completed its "
        "corrected (and parameter) write; a faulting io step releases its lock; CLI exit status 0 iff nothing raised (9 theorems). Tied to the code by fault enumeration through "
        "the interposed datasets/model hooks: every (site in source read, reference read, fit, apply, corrected write, parameter "
        "write) x block x threads 1/2/4 (exhaustive in the thorough tier, a seeded third in the quick tier): the API raises, "
@@ -139,7 +142,8 @@ CHECKS = {
        "for writing, then content that depends on inputs+configuration only): without overwrite an existing output means "
        "FileExistsError and an unchanged file system; paths other than the two outputs are untouched by every call and every "
        "history; no other files appear; a successful call leaves exactly its configuration's content; after any history the "
-       "outputs equal those of the same call on an empty directory (9 theorems). Tied to the code by histories of 1-4 calls (one "
+       "outputs equal those of the same call on an empty directory (9 theorems); source-tie: processCall is the check/check/open/open "
+       "event sequence extracted from _out_files (src_C10_out_files). Tied to the code by histories of 1-4 calls (one "
        "object / fresh objects / CLI / mixed; str and Path; overwrite on/off; with/without parameter image; pre-existing garbage "
        "or older outputs): outcomes and listings vs the machine, bytes+mtime of untouched files, decoded outputs vs fresh runs.",
   note="GDAL side-car files (.aux.xml, .msk, .ovr) are whitelisted. Content identity is the decoded raster (pixels, masks, "
@@ -150,7 +154,10 @@ CHECKS = {
        "partition gives the whole-image sums, in any completion order (sums_additive_over_partition, fold_perm); N = number of "
        "jointly valid processing pixels; RMSE^2 = mean squared difference; r2 = squared Pearson correlation (centred-sum identity); "
        "rRMSE^2 = RMSE^2/mean(ref)^2 (15 theorems); source-tie: bandStats is get_band_stats' expressions with the square roots "
-       "squared away. Tied to the code by RasterCompare.process on integer-valued pairs with holes in both images, invalid pixels encoded as NaN / "
+       "squared away, blockSums adds what get_block_sums adds per pixel; END TO END (Props/E2ECompare.lean): for every pair, geometry "
+       "and block shape, accumulating the seven sums of the blocks - each computed from what that block read, with the source "
+       "averaged onto the reference grid per block - gives exactly the sums of the single-block run "
+       "(compare_sums_partition_invariant), hence the same N, r2, RMSE, rRMSE. Tied to the code by RasterCompare.process on integer-valued pairs with holes in both images, invalid pixels encoded as NaN / "
        "numeric nodata / internal mask (model "
        "resampler + cmpstats give the exact values): N exact, r2/RMSE/rRMSE to 5e-5, 3 partitions x threads 1/2/4 must agree, Mean "
        "row = band average, CLI JSON = API.",
@@ -223,11 +230,16 @@ CHECKS = {
   text="Proof (Lean 4): erosion characterisation, the full-coverage definition (kept iff the pixel and every pixel of the "
        "(kh+2)x(kw+2) window are inside, covered by valid pixels only and carry parameters), subset of the joint mask, strictness "
        "(first row/column never survives), and block invariance of the erosion on sub-blocks whose overlap equals the grown radius "
-       "(partial_block_invariant, grown_radius_eq_overlap) (6 theorems). Tied to the code by real fusions with mask_partial=True: the "
+       "(partial_block_invariant, grown_radius_eq_overlap) (6 theorems); END TO END (Model/PartialMask.lean, Props/E2EPartial.lean): the "
+       "whole pipeline as one function of the two images, and partial_mask_block_transparent / _of_fit: the block computes the "
+       "single-block validity for every source pixel whose centre's reference pixel lies in the block's output window, given "
+       "that every jointly valid pixel has a fit - both hypotheses shown necessary by kernel-checked counterexamples (a centre on a "
+       "block boundary = D8; a degenerate window = D16). Tied to the code by real fusions with mask_partial=True: the "
        "corrected dataset mask must equal the definition evaluated by the model (average cover of the zero-padded mask >= 1, joint "
        "mask, erode, nearest back to the source grid) on the whole window, be a strict subset of the source mask, and not depend "
-       "on the partition.",
-  note="Known finding D8 (open): in geometries where source pixel centres lie exactly on reference pixel edges the mask depends "
+       "on the partition; the whole-image model (pmask) against the real mask; degenerate-window pairs (D16).",
+  note="Known findings D8 and D16 (open; D16: with gain-offset a kernel window in which the source is constant has no fit, and "
+       "whether it is constant depends on where a block cuts it).  D8: in geometries where source pixel centres lie exactly on reference pixel edges the mask depends "
        "on the block partition (nearest-neighbour tie + erosion reach at seams). GDAL nearest tie-breaking is not modelled.",
   tech="Lean 4 proof (omega, Bool/List.all reasoning) + differential mask comparison against the model definition", ref='7 C17'),
  'C18': dict(
@@ -250,7 +262,8 @@ CHECKS = {
        "count as given, unknown configuration keys are rejected, known keys merge key by key; every key of the block/model/output "
        "dictionaries is a fuse keyword option and vice versa, likewise for compare (decide over tables regenerated from the live "
        "code by the translator gen_tables.py on every run); _update_existing_keys, output naming (kernel height then width), "
-       "parameter file name, nodata callback, default creation options (13 theorems). Tied to the code by CliRunner runs of "
+       "parameter file name, nodata callback, default creation options (13 theorems); source-tie: the merge and default-creation-option "
+       "conditions are the ones FuseCommand.invoke states (src_C19_merge). Tied to the code by CliRunner runs of "
        "`homonim fuse` where every option is independently default / flag / file / both (falsy flag values included), compared "
        "with the API call using the model's merged settings: corrected and parameter images pixel-, mask-, description- and "
        "tag-identical; file names vs the model; unknown keys rejected; every RasterCompare.process call made by `homonim compare` and "
@@ -266,7 +279,8 @@ CHECKS = {
        "arbitrary) on window ∩ dataset and leave the rest (write_spec, write2_spec), a window that misses the dataset is a no-op "
        "and never an error (write2_outside_noop), every write of a block that contains its window succeeds wherever the window "
        "lies (write2_total_of_block_contains) and every block of block_pairs does contain it (fuse_write_contained_*), "
-       "write-then-read round trip; checked counterexamples for the originally coded read and write logic (D3, D13) (20 theorems). "
+       "write-then-read round trip; checked counterexamples for the originally coded read and write logic (D3, D13) (20 theorems); "
+       "source-tie: boundedFixed is bounded_window_slices' np.clip / np.fmax arithmetic (src_C20_bounded). "
        "Tied to the code by ~4000 reads (exhaustive per-axis windows, 4 dtype/nodata/mask/band variants), ~200 writes and 50 "
        "writes of blocks with invalid pixels into internal-mask / numeric-nodata datasets, compared pixel by pixel.",
   note="GDAL read/write of an in-range window is trusted to transfer pixels faithfully; dtype conversion on write belongs to C13.",
